@@ -6,7 +6,7 @@ import ast
 from sa.astx import call_attr, call_name, dotted, src, walk_local
 from sa.effects import class_accesses
 from sa.selftest import Mutant, Silent
-from sa.props._lib_j import (asserted_eq, catching_handler, edge_asserts, enclosing_trys, is_self_attr, no_exc, node_calls, body_always_entered, run_sections,
+from sa.props._lib_j import (asserted_eq, catching_handler, edge_asserts, is_self_attr, no_exc, node_calls, body_always_entered, normalise, run_sections,
                              normal_exits, params, resolve, rsrc)
 
 PROPERTY = "C50"
@@ -27,6 +27,8 @@ EXPLANATION = (
     "Every anchor function is also checked to be entered on every call (no memoising/wrapping decorator, duplicate definition or rebinding). "
 )
 ASSUMPTIONS = [
+    "the rules read a normalised view of the anchored modules (sa/props/_lib_j.Normaliser): private helpers expanded at their call sites, module constants and single-assignment pure temporaries substituted, loops over constant tuples unrolled; evaluation order inside one statement is not modelled",
+   
     "os.symlink is an atomic create-if-absent (fails with EEXIST)",
     "kill(pid, 0) raises ESRCH iff no such process exists",
 ]
@@ -217,9 +219,16 @@ def _s_probe(ctx, S):
     ul = node_calls(g, lambda c: call_attr(c) == "unlock" and not c.args)
     ctx.need(lk, "l.lock() in isLocked")
     resname = next((src(t) for n_, c in lk for t in getattr(g.node(n_).ast, "targets", [])), None)
-    okf = bool(ul) and all(any(part == "finalbody" for _, part in enclosing_trys(c, f)) for _, c in ul) and \
-        all(g.guarded(n_, lambda e: src(e) == resname, True) for n_, c in ul)
-    ctx.check(okf, "probe/releases-what-it-acquired", q, "isLocked() does not release (in finally, only when acquired) the lock it took to probe")
+    # the lock taken by the probe is released exactly when it was acquired: unlock only under `acquired`, and no normal exit with `acquired` true that skipped it
+    # (if lock() raises nothing was acquired, so a try/finally around it is not required)
+    okf = bool(ul) and all(g.guarded(n_, lambda e: src(e) == resname, True) for n_, c in ul)
+    tests = g.ids(lambda n: n.kind == "test" and src(n.ast) == resname)
+    leak = None
+    for t in tests:
+        tsucc = [d for d, l in g.succ[t] if l == "T" and d not in [n_ for n_, _ in ul]]
+        leak = leak or (g.path(tsucc, [g.exit], avoid=[n_ for n_, _ in ul], edge_ok=no_exc) if tsucc else None)
+    ctx.check(okf and bool(tests) and leak is None, "probe/releases-what-it-acquired", q,
+              "isLocked() does not release (only when acquired, on every normal path) the lock it took to probe", witness=g.describe(leak))
     rets = [g.node(x).ast for x in normal_exits(g)]
     ctx.check(all(isinstance(r, ast.Return) and src(r.value) == f"not {resname}" for r in rets), "probe/answer", q, "isLocked() does not answer `not acquired`")
 
@@ -269,6 +278,7 @@ def _s_body(ctx, S):
 
 
 def check(ctx):
+    normalise(ctx, {LF: []})
     run_sections(ctx, [("lock", _s_lock), ("clean", _s_clean), ("unlock", _s_unlock), ("isLocked", _s_probe), ("posix-primitives", _s_posix), ("windows-emulation", _s_windows),
                        ("body-entered", _s_body)])
 
@@ -308,4 +318,11 @@ SILENT = [
     Silent("rename-local-pid", LF, "                        pid = readlink(self.name)", "                        ownerPid = readlink(self.name)",
            more=[(LF, "                            kill(int(pid), 0)", "                            kill(int(ownerPid), 0)")]),
     Silent("errno-membership", LF, "                if e.errno == errno.EEXIST:", "                if e.errno in (errno.EEXIST,):"),
+    Silent("create-and-claim-in-private-helpers", LF, "                symlink(str(os.getpid()), self.name)\n", "                self._createLink()\n",
+           more=[(LF, "            self.locked = True\n            self.clean = clean\n            return True\n", "            return self._held(clean)\n"),
+                 (LF, "    def unlock(self):", "    def _createLink(self):\n        me = str(os.getpid())\n        symlink(me, self.name)\n\n    def _held(self, clean):\n        self.locked = True\n        self.clean = clean\n        return True\n\n    def unlock(self):")]),
+    Silent("errno-decisions-in-named-temporaries", LF, "                        if e.errno == errno.ESRCH:", "                        ownerIsGone = e.errno == errno.ESRCH\n                        if ownerIsGone:",
+           more=[(LF, "                if e.errno == errno.EEXIST:\n", "                code = e.errno\n                if code == errno.EEXIST:\n")]),
+    Silent("probe-without-finally", LF, "    l = FilesystemLock(name)\n    result = None\n    try:\n        result = l.lock()\n    finally:\n        if result:\n            l.unlock()\n    return not result",
+           "    probe = FilesystemLock(name)\n    got = probe.lock()\n    if got:\n        probe.unlock()\n    return not got"),
 ]
